@@ -30,8 +30,15 @@ func VH_stree_Step() {
 	}
 	ref = vApplyOp(t, ref, op, 100, "step")
 	vCheckTree(t, ref, "after step")
-	vAssert(t.max >= t.size, "representation: max >= size")
-	vAssert(t.size >= (t.max*t.β+maxBalance)/fracLimit, "representation: size not below the rebuild threshold")
+	if n <= vCase("two") && (op == 2 || n <= 2) {
+		// a second operation from the state the first one left (stale internal state
+		// shows here): after a removal for all sizes, after anything for tiny trees
+		ref = vApplyOp(t, ref, vChoice("op2", 3), 101, "second step")
+		vCheckTree(t, ref, "after second step")
+		vCover("two-steps")
+	}
+	vInvariant(t.max >= t.size, "max >= size")
+	vInvariant(t.size >= (t.max*t.β+maxBalance)/fracLimit, "size not below the rebuild threshold")
 }
 
 // VH_stree_Read: read-only operations on an arbitrary tree shape (Get,
@@ -48,6 +55,38 @@ func VH_stree_Read() {
 	vCover("read")
 	vCheckTree(t, ref, "read")
 	vProbe(t, ref, "read")
+}
+
+// VH_stree_Nested: two traversals interleaved on the same tree (or a tree and its clone).
+func VH_stree_Nested() {
+	n := vCase("n")
+	root := vShape(n)
+	var ref []vKT
+	vFill(root, &ref)
+	t := vMkTree(root, 500, n, n)
+	// two traversals interleaved on the same tree (and on a clone) do not disturb each other
+	if n >= 2 {
+		y1, y2 := ref[vChoice("outer-from", n)], ref[vChoice("inner-from", n)]
+		other := t
+		if vChoice("inner-on-clone", 2) == 1 {
+			other = t.Clone()
+		}
+		var outer []vKT
+		first := true
+		for k := range t.InorderAfter(y1) {
+			outer = append(outer, k)
+			if first {
+				first = false
+				var inner []vKT
+				for j := range other.InorderAfter(y2) {
+					inner = append(inner, j)
+				}
+				vAssert(vSameSeq(inner, ref[y2.Tag:]), "a traversal started inside another one is complete")
+			}
+		}
+		vAssert(vSameSeq(outer, ref[y1.Tag:]), "a traversal is not disturbed by another one started while it is suspended")
+		vCover("nested-traversals")
+	}
 }
 
 // VH_stree_Clone: a clone shares no node with its original and neither side sees the other's changes.
